@@ -4,7 +4,7 @@ copy of /repo/src with the patch applied; the copy is parsed only). Every check 
 usage: tools/equiv_check.py [name ...] [--dir DIR]   (--dir: look for <name>/patch.diff under DIR instead of /verif/equiv)"""
 import json, os, shutil, subprocess, sys, tempfile
 from concurrent.futures import ThreadPoolExecutor
-V = '/verif'
+V = os.path.dirname(os.path.dirname(os.path.abspath(__file__)))  # the tree this tool lives in (a `vp run` snapshot runs its own copy)
 args = sys.argv[1:]
 base = f'{V}/equiv'
 if '--dir' in args:
